@@ -56,11 +56,16 @@ class NetworkxGraph(AbstractGraph):
         """Constructs a graph from all modules and their imports."""
         self._add_all_modules_as_nodes()
 
+        known_modules = self._get_all_modules_and_their_parents()
+
         for imp in self._imports:
             importer = imp.importer()
             importee = imp.importee()
 
-            self._create_edge(importer, importee)
+            # an imported name that is not a module (e.g. a function, or a file that has been excluded) must not
+            # turn into an import of one of its parent modules when the graph is flattened
+            if self._level_limit is None or importee in known_modules:
+                self._create_edge(importer, importee)
 
             self._add_edges_within_module_hierarchy(
                 imp.importer_parent_modules(),
@@ -73,6 +78,14 @@ class NetworkxGraph(AbstractGraph):
                 all_importee_modules[:-1], all_importee_modules[1:]
             ):
                 self._create_edge(parent, child, inherits=True)
+
+    def _get_all_modules_and_their_parents(self) -> set[Node]:
+        known_modules = set(self._all_modules)
+
+        for module in self._all_modules:
+            known_modules.update(get_parent_modules(module))
+
+        return known_modules
 
     def _add_all_modules_as_nodes(self) -> None:
         for module in self._all_modules:
